@@ -135,7 +135,11 @@ def apply_muts(doc, muts):
                 pool = secs if m[1] == "sec" else props
                 if not pool:
                     continue
-                pool[m[2] % len(pool)].name = None
+                o_ = pool[m[2] % len(pool)]
+                if (m[2] // 7) % 2:
+                    o_.name = None
+                else:
+                    o_.name = "".join(list(o_.id))     # the id text given as a name (an equal string, not the same object)
             elif name == "dup-name":
                 pool = secs if m[1] == "sec" else props
                 cands = [o for o in pool if len(_siblings(o)) > 1]
